@@ -1068,6 +1068,12 @@ def wrap(rng, gate, depth, max_arity=5):
     return gate
 
 
+def place(rng, g, width):
+    """the gate on distinct random qubits of a register of at least ``width`` (never narrower than the gate:
+    a wrapper chain with several controls may be wider than the register a case had in mind)"""
+    return g(*GC.rand_qubits(rng, g.num_qubits, max(width, g.num_qubits)))
+
+
 def rand_circuit(rng, nprng, cls, quick=True, defs=None, symbols=None):
     from orquestra.quantum.circuits import Circuit
 
@@ -1095,7 +1101,7 @@ def rand_circuit(rng, nprng, cls, quick=True, defs=None, symbols=None):
                 g = wrap(rng, g, rng.randint(1, max_depth))
         ops.append(g)
     width = max(max(g.num_qubits for g in ops), rng.randint(1, 6))
-    placed = [g(*GC.rand_qubits(rng, g.num_qubits, width)) for g in ops]
+    placed = [place(rng, g, width) for g in ops]
     span = max(q for op in placed for q in op.qubit_indices) + 1
     r = rng.random()
     if r < 0.35:
@@ -1324,7 +1330,7 @@ def run_case(ctx):
             return
         if kind == "idle":
             g = rand_base_gate(rng, nprng, GS.symbol_pool(rng, 2), "any")
-            q = GC.rand_qubits(rng, g.num_qubits, 3)
+            q = GC.rand_qubits(rng, g.num_qubits, max(3, g.num_qubits))
             c = Circuit([g(*q)], n_qubits=max(q) + 1 + rng.randint(1, 30))
             ctx.describe(f"edge idle via {how}: {describe_circuit(c)}", is_nontrivial(c))
             _run(ctx, c, how)
@@ -1334,7 +1340,7 @@ def run_case(ctx):
             gates = [rng.choice([B.RX, B.RZ, B.PHASE, B.XX, B.Delay, B.GPi])(v) for v in vals]
             if rng.random() < 0.4:
                 gates.append(B.U3(rng.choice(vals), rng.uniform(-7, 7), rng.randint(-4, 4)))
-            c = Circuit([g(*GC.rand_qubits(rng, g.num_qubits, 4)) for g in gates])
+            c = Circuit([place(rng, g, 4) for g in gates])
             ctx.describe(f"edge numbers via {how}: {describe_circuit(c)}", False)
             _run(ctx, c, how)
             return
@@ -1346,7 +1352,7 @@ def run_case(ctx):
                 e = tab[name]
                 g = e["ref"] if e["kind"] == "fixed" else e["ref"](
                     *[GS.rand_param(rng, syms, "any") for _ in range(e["nparams"])])
-                ops.append(g(*GC.rand_qubits(rng, g.num_qubits, 4)))
+                ops.append(place(rng, g, 4))
             rng.shuffle(ops)
             c = Circuit(ops)
             ctx.describe(f"edge all_builtin via {how}: {describe_circuit(c)}", True)
@@ -1372,7 +1378,7 @@ def run_case(ctx):
                 g = d(*[GS.rand_param(rng, syms, "any") for _ in d.params_ordering])
                 if rng.random() < 0.4:
                     g = wrap(rng, g, 1)
-                ops.append(g(*GC.rand_qubits(rng, g.num_qubits, 5)))
+                ops.append(place(rng, g, 5))
             rng.shuffle(ops)
             c = Circuit(ops)
             ctx.describe(f"edge {kind} via {how}: {describe_circuit(c)}", True)
@@ -1398,7 +1404,7 @@ def run_case(ctx):
                                 B.RZ(sympy.Symbol("sqrt") * sympy.sqrt(x))])
             if rng.random() < 0.3:
                 g = g.controlled(1)
-            c = Circuit([B.X(0), g(*GC.rand_qubits(rng, g.num_qubits, 3))])
+            c = Circuit([B.X(0), place(rng, g, 3)])
             ctx.describe(f"edge k3:{v} via {how}: {describe_circuit(c)}", True)
             _run(ctx, c, how)
             return
@@ -1430,7 +1436,7 @@ def run_case(ctx):
             g = base
             for k in order:
                 g = mk[k](g)
-            c = Circuit([g(*GC.rand_qubits(rng, g.num_qubits, g.num_qubits + 1))])
+            c = Circuit([place(rng, g, g.num_qubits + 1)])
             ctx.describe(f"edge chain via {how}: {describe_circuit(c)}", True)
             _run(ctx, c, how)
             return
@@ -1441,7 +1447,7 @@ def run_case(ctx):
             g = d(*args)
             if rng.random() < 0.4:
                 g = wrap(rng, g, 1)
-            c = Circuit([g(*GC.rand_qubits(rng, g.num_qubits, 4))])
+            c = Circuit([place(rng, g, 4)])
             ctx.describe(f"edge swapped_args via {how}: {describe_circuit(c)}", True)
             _run(ctx, c, how)
             return
